@@ -220,5 +220,6 @@ type RunResult struct {
 	Sample     any               `json:"sample,omitempty"`
 	LogHash    string            `json:"log_hash,omitempty"`
 	Trouble    string            `json:"trouble,omitempty"` // harness trouble -> exit 2
+	WallMs     int64             `json:"wall_ms,omitempty"`
 	Notes      []string          `json:"notes,omitempty"`
 }
